@@ -60,8 +60,11 @@ BSer == IsEvent("Ser") /\ LET e == Log[l] IN
 BDeser == IsEvent("Deser") /\ LET e == Log[l] IN
              /\ d' = (e.dst :> Restore(dimg[e.blob])) @@ d /\ ProjOK(e.r, d'[e.dst]) /\ UNCHANGED <<du, dimg>>
 
+BReser == IsEvent("Reser") /\ UNCHANGED <<d, du, dimg>>
+BURefused == IsEvent("URefused") /\ UNCHANGED <<d, du, dimg>>     \* the seed-hash check comes first: nothing happens
+
 BInit == d = <<>> /\ du = <<>> /\ dimg = <<>> /\ l = 1
 BNext == BBegin \/ BNew \/ BUpdate \/ BUpdateMany \/ BUpdateIgnored \/ BObs \/ BCopy
-         \/ BUNew \/ BUUpdate \/ BUCopy \/ BUResult \/ BSer \/ BDeser
+         \/ BUNew \/ BUUpdate \/ BUCopy \/ BUResult \/ BSer \/ BDeser \/ BReser \/ BURefused
 BSpec == BInit /\ [][BNext]_bvars
 ====
